@@ -32,7 +32,8 @@ def mutate_json(doc, mut):
         if isinstance(data, list) and d.get("matrix_type") == "sparse":
             n, m = (shape + [0, 0])[:2] if isinstance(shape, list) else (0, 0)
             new = {"row_out": [n, 0, 1.0], "col_out": [0, m, 1.0], "negative": [-1, 0, 1.0], "index_text": ["0", 0, 1.0],
-                   "value_text": [0, 0, "x"], "malformed": [0, 0]}[arg]
+                   "value_text": [0, 0, "x"], "malformed": [0, 0], "col_index_float": [0, 0.5, 1.0],
+                   "row_index_float": [0.5, 0, 1.0], "col_index_text": [0, "0", 1.0]}[arg]
             data.append(new)
     elif kind == "ids":
         rows, cols = d.get("rows"), d.get("columns")
